@@ -22,70 +22,8 @@ theorem bin1dLoop_ok_or_unmodelled (guess : Nat → Nat → Int) (val : α) (arr
     ∀ (n lo hi : Nat), hi - lo = n → lo ≤ hi → hi < arr.length → lo ≤ countLE arr val →
       countLE arr val ≤ hi + 1 →
       bin1dLoop guess val arr lo hi = .ok ((countLE arr val : Int) - 1) ∨
-      bin1dLoop guess val arr lo hi = .error .unmodelled := by
-  intro n
-  induction n using Nat.strongRecOn with
-  | _ n ih =>
-    intro lo hi hn hle hhi hk1 hk2
-    by_cases hr : hi - lo ≤ 1 ∨ val = arr[lo]'(by omega) ∨ val < arr[lo]'(by omega) ∨ arr[hi] ≤ val
-    · -- no guess is consulted at this state: any guess function gives the same result
-      left
-      have hlo : lo < arr.length := by omega
-      have key : bin1dLoop guess val arr lo hi = bin1dLoop (fun lo hi => (lo : Int)) val arr lo hi := by
-        rw [bin1dLoop, bin1dLoop.eq_1 (fun lo hi => (lo : Int))]
-        simp only [List.getElem?_eq_getElem hlo, List.getElem?_eq_getElem hhi]
-        rcases hr with h | h | h | h
-        · simp [h]
-        · by_cases h0 : hi - lo ≤ 1
-          · simp [h0]
-          · simp [h0, h]
-        · by_cases h0 : hi - lo ≤ 1
-          · simp [h0]
-          · by_cases h1 : val = arr[lo]
-            · simp [h0, h1]
-            · simp [h0, h1, h]
-        · by_cases h0 : hi - lo ≤ 1
-          · simp [h0]
-          · by_cases h1 : val = arr[lo]
-            · simp [h0, h1]
-            · by_cases h2 : val < arr[lo]
-              · simp [h0, h1, h2]
-              · simp [h0, h1, h2, h]
-      rw [key]
-      exact bin1dLoop_spec _ val arr
-        (fun lo hi _ hl _ _ => ⟨Int.le_refl _, Int.ofNat_le.2 (by omega)⟩) hinc n lo hi hn hle hhi hk1 hk2
-    · have hlo : lo < arr.length := by omega
-      have h0 : ¬ hi - lo ≤ 1 := fun h => hr (Or.inl h)
-      have h1 : ¬ val = arr[lo] := fun h => hr (Or.inr (Or.inl h))
-      have h2 : ¬ val < arr[lo] := fun h => hr (Or.inr (Or.inr (Or.inl h)))
-      have h3 : ¬ arr[hi] ≤ val := fun h => hr (Or.inr (Or.inr (Or.inr h)))
-      have klo : arr[lo] ≤ val ↔ lo < countLE arr val := le_iff_lt_countLE hinc lo hlo
-      have khi : arr[hi] ≤ val ↔ hi < countLE arr val := le_iff_lt_countLE hinc hi hhi
-      have hlok : lo < countLE arr val := klo.1 (by grind)
-      have hhik : ¬ hi < countLE arr val := (not_congr khi).1 h3
-      rw [bin1dLoop]
-      simp only [List.getElem?_eq_getElem hlo, List.getElem?_eq_getElem hhi, h0, h1, h2, h3, if_false]
-      by_cases hg : guess lo hi < (lo : Int) ∨ (hi : Int) < guess lo hi
-      · right; simp [hg]
-      · simp only [hg, if_false]
-        by_cases c1 : (lo : Int) = guess lo hi
-        · simp only [c1, if_true]
-          exact ih (hi - (lo + 1)) (by omega) (lo + 1) hi rfl (by omega) hhi (by omega) hk2
-        · simp only [c1, if_false]
-          by_cases c2 : (hi : Int) = guess lo hi
-          · simp only [c2, if_true]
-            exact ih (hi - 1 - lo) (by omega) lo (hi - 1) rfl (by omega) (by omega) hk1 (by omega)
-          · simp only [c2, if_false]
-            have hgn : (guess lo hi).toNat < arr.length := by omega
-            simp only [List.getElem?_eq_getElem hgn]
-            have kg := le_iff_lt_countLE (v := val) hinc (guess lo hi).toNat hgn
-            by_cases c3 : val < arr[(guess lo hi).toNat]
-            · simp only [c3, if_true]
-              have := (not_congr kg).1 (lt_iff_not_le'.1 c3)
-              exact ih ((guess lo hi).toNat - lo) (by omega) lo _ rfl (by omega) hgn hk1 (by omega)
-            · simp only [c3, if_false]
-              have := kg.1 (by rw [lt_iff_not_le'] at c3; exact Classical.not_not.1 c3)
-              exact ih (hi - (guess lo hi).toNat) (by omega) _ hi rfl (by omega) hhi (by omega) hk2
+      bin1dLoop guess val arr lo hi = .error .unmodelled :=
+  fun n lo hi hn hle hhi hk1 hk2 => Or.inl (bin1dLoop_correct guess val arr hinc n lo hi hn hle hhi hk1 hk2)
 
 end AnyGuess
 section Twins
